@@ -21,6 +21,7 @@ structure Sess where
   szit  : Option (Nat × Nat × ZipCursor Elem) := none
   sparse : Bool := false      -- obs=sparse session: content is printed by `observe` only
   force  : Bool := false      -- the current op is `observe`
+  tieSlot : Option Nat := none   -- slot printed tie-invariantly by the current op (`sort cmp=k10`)
   zsame : Nat × Bool := (0, false)      -- ideal cursor of a zip iterator with the same array on both sides
 
 def getSlot {β : Type} (l : List (Option β)) (k : Nat) : Option β := (l[k]?).getD none
@@ -53,6 +54,8 @@ def leOf (name : String) : Elem → Elem → Bool :=
   match name with
   | "desc" => fun a b => dec a ≥ dec b
   | "m10" => fun a b => dec a % 10 < dec b % 10 || (dec a % 10 == dec b % 10 && dec a ≤ dec b)
+  -- a total preorder with ties (key v % 10 only); `List.mergeSort` is stable, like this glibc's qsort
+  | "k10" => fun a b => dec a % 10 ≤ dec b % 10
   | _ => fun a b => dec a ≤ dec b
 def sortFnOf (name : String) : List Elem → List Elem := fun l => l.mergeSort (leOf name)
 
@@ -79,10 +82,19 @@ def obsSlotM (k : Nat) (a : ArraySized) : String :=
 def obsSlotS (k : Nat) (xs : List Elem) : String :=
   let last := match xs.getLast? with | some c => toString (dec c) | none => "-"
   s!" a{k}={fmtElems xs} n{k}={xs.length} l{k}={last}"
+/-- tie-invariant print: keys (v % 10) in array order, then the records as a sorted multiset -/
+def obsTie (k : Nat) (xs : List Elem) : String :=
+  let keys := xs.map fun c => toString (dec c % 10)
+  let ms := (xs.map dec).mergeSort (fun a b => a ≤ b)
+  s!" k{k}=[{",".intercalate keys}] m{k}=[{",".intercalate (ms.map toString)}] n{k}={xs.length}"
 def obsM (s : Sess) : String :=
-  String.join ((List.range NSLOT).map fun k => match getSlot s.model k with | some a => obsSlotM k a | none => "")
+  String.join ((List.range NSLOT).map fun k => match getSlot s.model k with
+    | some a => if s.tieSlot == some k then obsTie k ((List.range a.size).filterMap fun i => (a.getAt i {}).2.1) else obsSlotM k a
+    | none => "")
 def obsS (s : Sess) : String :=
-  String.join ((List.range NSLOT).map fun k => match getSlot s.spec k with | some xs => obsSlotS k xs | none => "")
+  String.join ((List.range NSLOT).map fun k => match getSlot s.spec k with
+    | some xs => if s.tieSlot == some k then obsTie k xs else obsSlotS k xs
+    | none => "")
 def physSlot (k : Nat) (a : ArraySized) : String :=
   let nb := (if a.triple == .libc then a.size else a.capacity) * a.dataLen
   s!"dl{k}={a.dataLen} size{k}={a.size} cap{k}={a.capacity} buf{k}={hex (a.buf.take nb)}"
@@ -148,6 +160,7 @@ def noSession (s : Sess) (m : Mem) : Sess × String × String :=
 /-- returns the new session, the spec line and the model line -/
 def step (s0 : Sess) (c : Cmd) : Sess × String × String :=
   let s : Sess := { s0 with force := c.op == "observe",
+                            tieSlot := if c.op == "sort" && c.str "cmp" == some "k10" then some (slotOf c "o" 0) else none,
                             sparse := s0.sparse || ((c.op == "new" || c.op == "new_default") && c.str "obs" == some "sparse") }
   let m := s.mem.begin c.sched
   let k := slotOf c "o" 0
